@@ -327,7 +327,7 @@ def limit_case(rng, res):
     timed out; the model gives the same verdict for the schedule 'alive at the first poll, done after `dur` seconds'."""
     import in_toto.runlib as rl
     import time
-    limit, dur = rng.choice([(0, 0.6), (0.0, 0.6), (0, 0.6), (0.2, 0.9), (5, 0.1)])
+    limit, dur = rng.choice([(0, 0.6), (0.0, 0.6), (0, 0.6), (0.2, 2.5), (20, 0.1)])      # (wide margins: the machine may be busy)
     streams = rng.random() < 0.5
     tmp = tempfile.mkdtemp(prefix="verif-c13l-")
     marker = os.path.join(tmp, "marker")
